@@ -145,6 +145,24 @@ CHECKS = {
         note="Trusted: numeric comparison in the harness. Conditional jumps and callq/jmpq are unspecified by the statement and accepted either way.",
         ref="DESIGN.md 4/C18",
     ),
+    "C13": dict(
+        cat="exploration",
+        technique="property-based testing (Hypothesis): a macro-free rule is factored into macros in every supported use form and compiled; round-trip oracle against the manually inlined rule (regex text equality, behavioural comparison on difference)",
+        text="Macro-free rules are factored into 1-4 macros (whole item, whole operand/value, name-embedded string macro, times-body string macro, parameterised macro with 1-3 "
+        "formals incl. int/0 actuals), nested, used 1-3 times with equal and different actuals, and the definitions split between the rule file and 0-2 extra files; "
+        "produce_regex of the factored rule must equal that of the rule inlined by an independent 40-line reference expander (whose inverse relation to the factoring is asserted).",
+        note="Trusted: reference expander, Hypothesis. Unsupported use forms (macro as key with operand list, formal in key position, item macro with sibling times) are not generated.",
+        ref="DESIGN.md 4/C13",
+    ),
+    "C19": dict(
+        cat="exploration",
+        technique="property-based testing (Hypothesis): valid macro rules receive one drawn fault (undefined reference at each position kind, deleted/unpassed definition, name without @); oracle = must raise naming the reference, controls must compile @-free",
+        text="Valid macro rules from the C13 generator get exactly one fault from 12 kinds covering every position a reference can occupy (list item, operand, $deref value, key with "
+        "times body, key with operand body, under $or/$not, inside a macro body listed first/last), a deleted or not-passed definition, or a definition renamed to lack '@' "
+        "(with and without its uses renamed). The faulted rule must fail to compile with an error naming the reference; control rules must compile to an '@'-free regex.",
+        note="Trusted: the generator's vocabulary is '@'-free by construction. At least one macro definition is always supplied (the statement's scope).",
+        ref="DESIGN.md 4/C19",
+    ),
 }
 
 NOT_APPLICABLE = []
